@@ -34,6 +34,7 @@ type chainDgram struct {
 	Hex   string `json:"hex"`
 	Oob   int    `json:"oob"`  // interface index of the control message, -1 = no control message
 	Peer  string `json:"peer"` // source address (DHCPv6: decides nothing for direct messages, used for relays)
+	Via   int    `json:"via"`  // start mode: index of the listen address the datagram is sent to
 }
 
 type chainSpec struct {
@@ -43,6 +44,13 @@ type chainSpec struct {
 	Files      map[string]string `json:"files"`
 	Dgrams     []chainDgram      `json:"dgrams"`
 	WatchdogMs int               `json:"watchdog_ms"`
+	// start mode: the whole server is started with server.Start on Listeners loopback addresses per
+	// protocol (DHCPv4: Net4+".1", ".2", .. port Port; DHCPv6: [::1] ports Port+1, Port+2, ..) and the
+	// datagrams travel through real sockets; DHCPv4 datagrams are relayed ones (giaddr Net4+".8")
+	Start     bool   `json:"start"`
+	Listeners int    `json:"listeners"`
+	Net4      string `json:"net4"`
+	Port      int    `json:"port"`
 }
 
 type chainSend struct {
@@ -61,8 +69,10 @@ type chainOut struct {
 }
 
 type chainResult struct {
-	SetupErr string     `json:"setup_err"`
-	Outs     []chainOut `json:"outs"`
+	SetupErr  string     `json:"setup_err"`
+	Outs      []chainOut `json:"outs"`
+	Peer6Port int        `json:"peer6_port"` // start mode: the source port of the DHCPv6 client socket
+	CloseHang bool       `json:"close_hang"` // start mode: Close + Wait did not return
 }
 
 func init() {
@@ -82,6 +92,11 @@ func chainsubMain() {
 	}
 	res := chainResult{Outs: []chainOut{}}
 	emit := func() { json.NewEncoder(os.Stdout).Encode(res) }
+	if spec.Start {
+		startMain(spec, &res)
+		emit()
+		return
+	}
 	dir, err := os.MkdirTemp(workDir(), "chain")
 	if err != nil {
 		res.SetupErr = "harness: " + err.Error()
